@@ -275,15 +275,20 @@ def run_group_once(g, gdir, extra_defs=()):
     last = None
     for s in solvers:
         cmd = cbmc_cmd(g, binary, s)
-        rc, out, err, wall = run(cmd, gdir, g.timeout)
         cmds.append(' '.join(cmd))
-        if rc == -9:
-            last = 'timeout (%ss) on back end %s' % (g.timeout, s)
-            continue
-        try:
-            results, msgs, status = parse_cbmc_json(out)
-        except Undecided as e:
-            last = '%s on back end %s: %s' % (e, s, (err or out)[-400:])
+        results = None
+        for attempt in (1, 2):          # a killed solver process (machine under memory pressure) is retried once
+            rc, out, err, wall = run(cmd, gdir, g.timeout)
+            if rc == -9:
+                last = 'timeout (%ss) on back end %s' % (g.timeout, s)
+                break
+            try:
+                results, msgs, status = parse_cbmc_json(out)
+                break
+            except Undecided as e:
+                last = '%s on back end %s (exit %s): %s' % (e, s, rc, (err or out)[-300:])
+                time.sleep(3)
+        if results is None:
             continue
         bad = [m for t, m in msgs if 'ignoring forall' in m or 'ignoring exists' in m]
         if bad:
@@ -521,8 +526,13 @@ def write_evidence(ctx, recipe, results, violations, known, undecided=None):
     for r in results:
         by_backend[r.backend] = by_backend.get(r.backend, 0) + sum(1 for o in r.obligations if o.status == 'SUCCESS')
     level = getattr(recipe, 'LEVEL', 'proof')
+    known_failed = len({(r.group.name, o.key, o.prop) for r, o, f in known})
     cov = {
-        'obligations': n, 'discharged': disch,
+        # obligations the claim covers: everything CBMC generated except the obligations that fail and are
+        # listed in known_findings.json (those are reported separately below, never counted as discharged)
+        'obligations': n - known_failed, 'discharged': disch,
+        'obligations_generated': n, 'obligations_failed_listed_as_known_findings': known_failed,
+        'obligations_failed_not_listed': n - disch - known_failed,
         'obligations_user_code': len(user),
         'discharged_by_back_end': by_backend,
         'checker_cmd': 'goto-cc | goto-instrument --dfcc <harness> --enforce-contract <f> [--replace-call-with-contract g] [--apply-loop-contracts] | cbmc (cbmc 6.11.0; exact commands in replay files)',
